@@ -368,6 +368,7 @@ func (c *Ctx) resetCase() {
 	c.forks = nil
 	c.liftGuard = nil
 	c.plainErr = nil
+	c.syncMaps = map[string]int{}
 	c.inInit = false
 }
 
